@@ -781,7 +781,30 @@ func txJSONCase(e *Env, t *gobinlog.Transaction, cls string) {
 
 var allTypeCodes = []byte{0, 1, 2, 3, 4, 5, 6, 7, 8, 9, 10, 11, 12, 13, 14, 15, 16, 17, 18, 19, 245, 246, 247, 248, 249, 250, 251, 252, 253, 254, 255}
 
+// jsonSpecials: every byte / sequence that a JSON string encoder must treat specially, used one at a time so that a
+// fast path keyed on "some other special character is present" cannot hide a missed case.
+var jsonSpecials = []string{"\\", "\"", "/", "\b", "\f", "\n", "\r", "\t", "\x00", "\x1f", "\x7f", "<", ">", "&", "'", "\xe2\x80\xa8", "\xe2\x80\xa9",
+	"\xc3\xa9", "\xf0\x9f\x98\x80", "\xff", "\x80", "\xc0\xaf", "\xed\xa0\x80", "\\u0041", "\\n", "\\\"", "%", "{", "}", "[", "]", ":", ","}
+
+func oneSpecial(r *rand.Rand) []byte {
+	sp := jsonSpecials[r.Intn(len(jsonSpecials))]
+	switch r.Intn(5) {
+	case 0:
+		return []byte(sp)
+	case 1:
+		return []byte("C:" + sp + "temp" + sp + "new")
+	case 2:
+		return []byte("50" + sp)
+	case 3:
+		return []byte(sp + "x")
+	}
+	return []byte("a" + sp + "b" + jsonSpecials[r.Intn(len(jsonSpecials))] + "c")
+}
+
 func nastyBytes(r *rand.Rand) []byte {
+	if r.Intn(3) == 0 {
+		return oneSpecial(r)
+	}
 	switch r.Intn(8) {
 	case 0:
 		return nil
